@@ -1,6 +1,7 @@
 import Ogorek.Props.C19U
 import Ogorek.Props.C02Pk
 import Ogorek.Props.C06Dec
+import Ogorek.Lemmas.Py2RueInv
 
 /-!
   C02 — what Python 2's picklers write for a `str` (byte string) object, at the three protocols Python 2 has: the STRING line with
@@ -148,17 +149,25 @@ def optPut (p : Nat) : Option Nat → Bytes
   | some n => cpPut p n
   | none => []
 
-/-- The pickle of `bytearray(d)` at protocol 1 or 2, without PROTO and STOP. -/
-def py2BytearrayBody (p : Nat) (pu : Py2Puts) (d : Bytes) : Bytes :=
+/-- The pickle of `bytearray(d)` without PROTO and STOP; `tb` is the UNICODE / BINUNICODE instruction carrying the content as text. -/
+def py2BytearrayBodyG (p : Nat) (pu : Py2Puts) (tb : Bytes) : Bytes :=
   ((99 :: sb "__builtin__" ++ [10] ++ sb "bytearray" ++ [10]) ++ optPut p pu.g) ++
   ((if p ≥ 2 then [] else [40]) ++
-   ((88 :: (natLE 4 (latin1ToUtf8 d).length ++ latin1ToUtf8 d)) ++ optPut p pu.t) ++
+   (tb ++ optPut p pu.t) ++
    (py2StrBody p (sb "latin-1") ++ optPut p pu.l) ++
    ([if p ≥ 2 then 0x86 else 116] ++ optPut p pu.a)) ++
   ([82] ++ optPut p pu.r)
 
+def py2BytearrayPickleG (p : Nat) (pu : Py2Puts) (tb : Bytes) : Bytes :=
+  (if p ≥ 2 then [0x80, UInt8.ofNat p] else []) ++ py2BytearrayBodyG p pu tb ++ [46]
+
+/-- Protocols 1 and 2: the text travels as BINUNICODE. -/
 def py2BytearrayPickle (p : Nat) (pu : Py2Puts) (d : Bytes) : Bytes :=
-  (if p ≥ 2 then [0x80, UInt8.ofNat p] else []) ++ py2BytearrayBody p pu d ++ [46]
+  py2BytearrayPickleG p pu (88 :: (natLE 4 (latin1ToUtf8 d).length ++ latin1ToUtf8 d))
+
+/-- Protocol 0: the text travels as a UNICODE line in Python 2's raw-unicode-escape (`none`: never, for Latin-1 text - evaluated). -/
+def py2BytearrayPickle0 (pu : Py2Puts) (d : Bytes) : Option Bytes :=
+  (py2Rue (latin1ToUtf8 d)).map fun u => py2BytearrayPickleG 0 pu (86 :: (u ++ [10]))
 
 section
 variable {mc : MCfg} {hook : Hook}
@@ -171,12 +180,11 @@ theorem runsOptPut (p : Nat) (o : Option Nat) :
 
 end
 
-/-- **C02 (Python 2's bytearray).**  For EVERY content `d` (below 1 GiB), protocols 1 and 2, whichever of the five memo PUTs are
-    written and with whatever indices, and both StrictUnicode settings (the encoding name `'latin-1'` is a Python-2 str: a
-    `ByteString` or a Go string), from any decoder state: Decode returns the `[]byte` with that content. -/
-theorem C02_py2_bytearray (cfg : Cfg) (hook : Hook) (p : Nat) (hp1 : 1 ≤ p) (hp2 : p ≤ 2) (pu : Py2Puts) (d : Bytes)
-    (hlen : (latin1ToUtf8 d).length < 2 ^ 32) (st0 : DState) :
-    ∃ st', decode (goCfg cfg) hook st0 (py2BytearrayPickle p pu d) = (.ok (.bytearray d), st', []) := by
+/-- The core: whatever instruction `tb` pushes the content as text. -/
+theorem py2_bytearray_core (cfg : Cfg) (hook : Hook) (p : Nat) (hp2 : p ≤ 2) (pu : Py2Puts) (d tb : Bytes)
+    (htext : RunsP (goCfg cfg) hook (ecfg p) tb (fun _ => True)
+      (fun st st' => st'.stack = dropPush 0 (GoVal.str (latin1ToUtf8 d)) st.stack)) (st0 : DState) :
+    ∃ st', decode (goCfg cfg) hook st0 (py2BytearrayPickleG p pu tb) = (.ok (.bytearray d), st', []) := by
   obtain ⟨his, hph, hrh⟩ := header_runs (goCfg cfg) hook p (by omega) [] (Or.inl rfl)
   let sta : DState := { st0 with stack := [], proto := 0 }
   let st1 : DState := { sta with proto := if p ≥ 2 then p else sta.proto }
@@ -195,11 +203,6 @@ theorem C02_py2_bytearray (cfg : Cfg) (hook : Hook) (p : Nat) (hp1 : 1 ≤ p) (h
   have hglobal : RunsP (goCfg cfg) hook (ecfg p) (99 :: sb "__builtin__" ++ [10] ++ sb "bytearray" ++ [10]) (fun _ => True)
       (fun st st' => st'.stack = dropPush 0 G st.stack) :=
     runsPush _ _ G (parses_global _ _ (by decide) (by decide)) (fun _ _ => rfl)
-  have htext : RunsP (goCfg cfg) hook (ecfg p) (88 :: (natLE 4 (latin1ToUtf8 d).length ++ latin1ToUtf8 d)) (fun _ => True)
-      (fun st st' => st'.stack = dropPush 0 T st.stack) := by
-    refine runsPush _ (.pushStr (latin1ToUtf8 d)) T (Parses.single rfl fun t => ?_) (fun _ _ => rfl)
-    have := (C19_counted (latin1ToUtf8 d) t).2.2.1 hlen
-    simpa using this
   have hlat : RunsP (goCfg cfg) hook (ecfg p) (py2StrBody p (sb "latin-1")) (fun _ => True)
       (fun st st' => st'.stack = dropPush 0 L st.stack) :=
     runsPush _ _ L (parses_py2StrBody p _ (by decide)) (fun _ _ => by simp only [exec, goCfg, L] <;> rfl)
@@ -208,7 +211,7 @@ theorem C02_py2_bytearray (cfg : Cfg) (hook : Hook) (p : Nat) (hp1 : 1 ≤ p) (h
   -- the argument tuple (+ puts), on a stack whose top is G
   have hargs : RunsP (goCfg cfg) hook (ecfg p)
       ((if p ≥ 2 then [] else [40]) ++
-        ((88 :: (natLE 4 (latin1ToUtf8 d).length ++ latin1ToUtf8 d)) ++ optPut p pu.t) ++
+        (tb ++ optPut p pu.t) ++
         (py2StrBody p (sb "latin-1") ++ optPut p pu.l) ++
         ([if p ≥ 2 then 0x86 else 116] ++ optPut p pu.a)) (fun _ => True)
       (fun st st' => st'.stack = .tuple [T, L] :: st.stack) := by
@@ -269,7 +272,93 @@ theorem C02_py2_bytearray (cfg : Cfg) (hook : Hook) (p : Nat) (hp1 : 1 ≤ p) (h
   have hs2 : st2.stack = .bytearray d :: st1.stack := by simpa [dropPush] using hq
   have hdec := decode_of_run (goCfg cfg) hook st0 st2 _ (his ++ is) _ st1.stack (Parses.append hph hpar) hrunall hs2 rfl
   refine ⟨{ st2 with stack := st1.stack }, ?_⟩
-  unfold py2BytearrayPickle py2BytearrayBody
+  unfold py2BytearrayPickleG py2BytearrayBodyG
+  simpa [List.append_assoc] using hdec
+
+/-- **C02 (Python 2's bytearray, protocols 1 and 2).**  For EVERY content `d` (its text below 4 GiB), whichever of the five memo PUTs
+    are written and with whatever indices, and both StrictUnicode settings (the encoding name `'latin-1'` is a Python-2 str: a
+    `ByteString` or a Go string), from any decoder state: Decode returns the `[]byte` with that content. -/
+theorem C02_py2_bytearray (cfg : Cfg) (hook : Hook) (p : Nat) (_hp1 : 1 ≤ p) (hp2 : p ≤ 2) (pu : Py2Puts) (d : Bytes)
+    (hlen : (latin1ToUtf8 d).length < 2 ^ 32) (st0 : DState) :
+    ∃ st', decode (goCfg cfg) hook st0 (py2BytearrayPickle p pu d) = (.ok (.bytearray d), st', []) := by
+  refine py2_bytearray_core cfg hook p hp2 pu d _ ?_ st0
+  refine runsPush _ (.pushStr (latin1ToUtf8 d)) _ (Parses.single rfl fun t => ?_) (fun _ _ => rfl)
+  have := (C19_counted (latin1ToUtf8 d) t).2.2.1 hlen
+  simpa using this
+
+/-- **C19 (UNICODE as Python 2's picklers write it).** -/
+theorem C19_UNICODE_py2 (s u t : Bytes) (h : py2Rue s = some u) :
+    parseInsn (86 :: (u ++ 10 :: t)) = .ok (.pushStr s, t) := by
+  have hinv := py2Rue_inv s u h
+  have hlf := py2Rue_no_lf s u h
+  simp only [parseInsn, Rd.bind, readByte, parseArg_86, Rd.mapE, readLine_line _ _ hlf, parseUnicodeArg, hinv, Rd.pure]
+
+/-- **C02 (Python 2's bytearray, protocol 0).**  The content travels as a UNICODE line in Python 2's own raw-unicode-escape. -/
+theorem C02_py2_bytearray_p0 (cfg : Cfg) (hook : Hook) (pu : Py2Puts) (d bs : Bytes)
+    (h : py2BytearrayPickle0 pu d = some bs) (st0 : DState) :
+    ∃ st', decode (goCfg cfg) hook st0 bs = (.ok (.bytearray d), st', []) := by
+  unfold py2BytearrayPickle0 at h
+  cases hu : py2Rue (latin1ToUtf8 d) with
+  | none => simp [hu] at h
+  | some u =>
+    simp only [hu, Option.map_some, Option.some.injEq] at h
+    subst h
+    refine py2_bytearray_core cfg hook 0 (by omega) pu d _ ?_ st0
+    refine runsPush _ (.pushStr (latin1ToUtf8 d)) _ (Parses.single rfl fun t => ?_) (fun _ _ => rfl)
+    have := C19_UNICODE_py2 (latin1ToUtf8 d) u t hu
+    simpa using this
+
+/-- **C02 (Python 2's unicode).**  A unicode object: UNICODE line (protocol 0) or BINUNICODE, the memo PUT, STOP. -/
+def py2UnicodePickle (p : Nat) (put : Option Nat) (s : Bytes) : Option Bytes :=
+  (if p = 0 then (py2Rue s).map fun u => 86 :: (u ++ [10]) else some (88 :: (natLE 4 s.length ++ s))).map fun tb =>
+    (if p ≥ 2 then [0x80, UInt8.ofNat p] else []) ++ (tb ++ optPut p put) ++ [46]
+
+theorem C02_py2_unicode (cfg : Cfg) (hook : Hook) (p : Nat) (hp : p ≤ 2) (put : Option Nat) (s bs : Bytes) (hlen : s.length < 2 ^ 32)
+    (h : py2UnicodePickle p put s = some bs) (st0 : DState) :
+    ∃ st', decode (goCfg cfg) hook st0 bs = (.ok (.str s), st', []) := by
+  obtain ⟨his, hph, hrh⟩ := header_runs (goCfg cfg) hook p (by omega) [] (Or.inl rfl)
+  let sta : DState := { st0 with stack := [], proto := 0 }
+  let st1 : DState := { sta with proto := if p ≥ 2 then p else sta.proto }
+  have hpo : ProtoOK (ecfg p) st1 := by
+    simp only [ProtoOK, pybuiltinModule, pybuiltinModuleE, ecfg, st1, sta]
+    by_cases h2 : p ≥ 2
+    · have : ((p : Int) ≤ 2) ↔ (p ≤ 2) := by omega
+      simp [h2, this]
+    · have h1 : (p : Int) ≤ 2 := by omega
+      simp [h2, h1]
+  -- the text instruction, whichever form
+  obtain ⟨tb, htb, hbs⟩ : ∃ tb, (if p = 0 then (py2Rue s).map fun u => 86 :: (u ++ [10]) else some (88 :: (natLE 4 s.length ++ s))) = some tb ∧
+      bs = (if p ≥ 2 then [0x80, UInt8.ofNat p] else []) ++ (tb ++ optPut p put) ++ [46] := by
+    unfold py2UnicodePickle at h
+    cases hx : (if p = 0 then (py2Rue s).map fun u => 86 :: (u ++ [10]) else some (88 :: (natLE 4 s.length ++ s))) with
+    | none => simp [hx] at h
+    | some tb => simp only [hx, Option.map_some, Option.some.injEq] at h; exact ⟨tb, rfl, h.symm⟩
+  have htext : RunsP (goCfg cfg) hook (ecfg p) tb (fun _ => True) (fun st st' => st'.stack = dropPush 0 (GoVal.str s) st.stack) := by
+    refine runsPush _ (.pushStr s) _ (Parses.single rfl fun t => ?_) (fun _ _ => rfl)
+    by_cases h0 : p = 0
+    · simp only [h0, if_true] at htb
+      cases hu : py2Rue s with
+      | none => simp [hu] at htb
+      | some u =>
+        simp only [hu, Option.map_some, Option.some.injEq] at htb
+        subst htb
+        have := C19_UNICODE_py2 s u t hu
+        simpa using this
+    · simp only [h0, if_false, Option.some.injEq] at htb
+      subst htb
+      have := (C19_counted s t).2.2.1 hlen
+      simpa using this
+  have hboth := RunsP.seqStack htext (runsOptPut (mc := goCfg cfg) (hook := hook) p put)
+    (fun st st1 _ e => ⟨.str s, st.stack, by simpa [dropPush] using e, rfl⟩)
+  obtain ⟨is, hpar, hrun⟩ := hboth
+  obtain ⟨st2, e2, _, hq⟩ := hrun (0 + his.length) st1 hpo trivial
+  have hrunall : runFrom (goCfg cfg) hook 0 (his ++ is) sta = .ok st2 := by
+    rw [runFrom_append (goCfg cfg) hook his is 0 sta st1 (hrh 0 sta)]
+    exact e2
+  have hs2 : st2.stack = .str s :: st1.stack := by simpa [dropPush] using hq
+  have hdec := decode_of_run (goCfg cfg) hook st0 st2 _ (his ++ is) _ st1.stack (Parses.append hph hpar) hrunall hs2 rfl
+  refine ⟨{ st2 with stack := st1.stack }, ?_⟩
+  rw [hbs]
   simpa [List.append_assoc] using hdec
 
 /-- `pickle.dumps(bytearray(b'h\xe9llo'), 2)` of Python 2.7's pickle.py, byte for byte, is an instance. -/
